@@ -1,0 +1,44 @@
+//go:build verif
+
+// Thin safety contracts: module functions and interface methods that functions under contract call and that had no
+// contract of their own ("callee without contract: assumed not to panic, result arbitrary" in the evidence).  Each
+// gets the panic-freedom obligations of its body (every index, slice, nil dereference, type assertion, division) and
+// a checked frame; callers now rely on a verified frame instead of an inferred one.
+// Comment-only file read by /verif/govc.
+
+package dns
+
+//@ iface SVCBKeyValue.Key [C01 C02 C05 C08 C16 C20]
+//@   pure
+//@ iface EDNS0.Option [C01 C08 C16]
+//@   pure
+// (called with n = 1024 only; n <= 0 would loop for ever)
+//@ func splitN [C05 C16 C02]
+//@   requires n > 0
+//@   loop 1 invariant 0 <= p && p <= len(s) && i == p + n
+//@   loop 1 decreases len(s) - p
+//@ func tsigTimeToString [C05 C16 C02]
+// (a net.Conn whose LocalAddr is a typed nil *net.UnixAddr is not something the net package hands out)
+//@ func isPacketConn [C11 C12 C15]
+//@   assume at "return ua.Net == " unixaddr: ua != nil
+//@ func (*Conn).tsigProvider [C11 C12]
+//@   requires co != nil
+//@ func (*Server).tsigProvider [C12 C14]
+//@   requires srv != nil
+//@ func (*Transfer).tsigProvider [C11 C15]
+//@   requires t != nil
+//@ func (*Server).getReadTimeout [C12 C14]
+//@   requires srv != nil
+//@   pure
+//@ func (*Client).readTimeout [C12]
+//@   requires c != nil
+//@   pure
+//@ func (*Client).writeTimeout [C12]
+//@   requires c != nil
+//@   pure
+//@ func (*Client).getTimeoutForRequest [C12]
+//@   requires c != nil
+//@   pure
+//@ func (*RRSIG).sigBuf [C10]
+//@   requires rr != nil
+//@ func StringToTime [C07 C05]
